@@ -235,8 +235,8 @@ func censusGlobalWrites(w *World, r *Report) []*Obligation {
 func censusSync(w *World, r *Report) []*Obligation {
 	var bad []string
 	for fn := range allFunctions(w) {
-		if fn.Blocks == nil || strings.Contains(fn.String(), "/cmd/") {
-			continue
+		if fn.Blocks == nil || strings.Contains(fn.String(), "/cmd/") || fn.Synthetic != "" {
+			continue // (wrappers for the promoted RWMutex methods are synthetic and never called by the library)
 		}
 		rlocks, runlocks := 0, 0
 		for _, b := range fn.Blocks {
@@ -607,4 +607,131 @@ func censusMapOrder(w *World, r *Report) []*Obligation {
 	}
 	r.Extra["map_range_sites"] = len(sites)
 	return out
+}
+
+// ---------- F3: read frame for C09 (signature independence) ----------
+
+func init() {
+	extraEngines["C09"] = append(extraEngines["C09"], censusSignatureReads)
+}
+
+func isX509Cert(t types.Type) bool {
+	if pt, ok := t.(*types.Pointer); ok {
+		t = pt.Elem()
+	}
+	n, ok := t.(*types.Named)
+	return ok && n.Obj().Name() == "Certificate" && n.Obj().Pkg() != nil && strings.HasSuffix(n.Obj().Pkg().Path(), "zcrypto/x509")
+}
+
+// censusSignatureReads: in lint-reachable code the signature value of a certificate is only ever
+// measured (len), fingerprints over the whole encoding are never read, SelfSigned is read only by
+// util.IsSelfSigned, the complete encoding c.Raw only by the functions listed (with their
+// assumed per-function contract) in the table c09_raw_readers, and the certificate is never
+// handed whole to an external function other than the name-parsing accessors.
+func censusSignatureReads(w *World, r *Report) []*Obligation {
+	reach := w.lintReachable()
+	rawOK := map[string]bool{}
+	for _, l := range w.CS.Tables["c09_raw_readers"] {
+		fs := strings.Fields(l)
+		if len(fs) > 0 {
+			rawOK[fs[0]] = true
+		}
+	}
+	extOK := map[string]bool{"GetParsedDNSNames": true, "GetParsedSubjectCommonName": true}
+	var sig, fp, self, raw, whole []string
+	nreads := 0
+	for fn := range reach {
+		for _, b := range fn.Blocks {
+			for _, in := range b.Instrs {
+				switch x := in.(type) {
+				case *ssa.FieldAddr:
+					if !isX509Cert(x.X.Type()) {
+						continue
+					}
+					st := x.X.Type().Underlying().(*types.Pointer).Elem().Underlying().(*types.Struct)
+					name := st.Field(x.Field).Name()
+					nreads++
+					where := fmt.Sprintf("%s (%s)", funcDisplayName(fn), posStr(w.Fset, x.Pos()))
+					switch {
+					case name == "Signature":
+						for _, ld := range *x.Referrers() {
+							u, ok := ld.(*ssa.UnOp)
+							if !ok {
+								if _, isDbg := ld.(*ssa.DebugRef); !isDbg {
+									sig = append(sig, where+": address of Signature taken")
+								}
+								continue
+							}
+							for _, use := range *u.Referrers() {
+								switch c := use.(type) {
+								case *ssa.DebugRef:
+								case *ssa.Call:
+									if bi, ok := c.Call.Value.(*ssa.Builtin); ok && (bi.Name() == "len" || bi.Name() == "cap") {
+										continue
+									}
+									sig = append(sig, where+": signature bytes passed to "+calleeName(&c.Call))
+								default:
+									sig = append(sig, fmt.Sprintf("%s: signature bytes used by %T", where, use))
+								}
+							}
+						}
+					case name == "FingerprintMD5" || name == "FingerprintSHA1" || name == "FingerprintSHA256" || name == "FingerprintNoCT" || name == "ValidSignature":
+						fp = append(fp, where+": reads "+name)
+					case name == "SelfSigned":
+						if fn.Name() != "IsSelfSigned" {
+							self = append(self, where)
+						}
+					case name == "Raw":
+						if !rawOK[funcKeyQualified(fn)] {
+							raw = append(raw, where)
+						}
+					}
+				case *ssa.Call:
+					callee := x.Call.StaticCallee()
+					if callee == nil || callee.Blocks != nil {
+						continue
+					}
+					args := x.Call.Args
+					for i, a := range args {
+						if isX509Cert(a.Type()) {
+							if i == 0 && callee.Signature.Recv() != nil && extOK[callee.Name()] {
+								continue
+							}
+							whole = append(whole, fmt.Sprintf("%s passes the certificate to %s (%s)", funcDisplayName(fn), callee.String(), posStr(w.Fset, x.Pos())))
+						}
+					}
+				case *ssa.MakeInterface:
+					if isX509Cert(x.X.Type()) {
+						whole = append(whole, fmt.Sprintf("%s boxes the certificate into an interface (%s)", funcDisplayName(fn), posStr(w.Fset, x.Pos())))
+					}
+				}
+			}
+		}
+	}
+	r.Extra["certificate_field_accesses_scanned"] = nreads
+	mk := func(name, note string, bad []string) *Obligation {
+		sort.Strings(bad)
+		o := censusObl("C09", "C09/tree/"+name+"#1", "frame", "", note, len(bad) == 0, strings.Join(bad, "; "))
+		o.Solver = "frame-checker"
+		return o
+	}
+	r.Trusted = append(r.Trusted,
+		"parser: SelfSigned implies RawSubject == RawIssuer (zcrypto parseCertificate), so for non-self-issued certificates util.IsSelfSigned is false whatever the signature",
+		"the functions in table c09_raw_readers depend on c.Raw only through tbsCertificate / signatureAlgorithm / successful decoding (assumed per-function contract, by inspection)",
+		"external accessors GetParsedDNSNames / GetParsedSubjectCommonName do not read the signature")
+	return []*Obligation{
+		mk("signature", "Certificate.Signature is read only as the operand of len/cap", sig),
+		mk("fingerprints", "fingerprints over the complete encoding and ValidSignature are never read", fp),
+		mk("selfsigned", "Certificate.SelfSigned is read only by util.IsSelfSigned", self),
+		mk("raw", "Certificate.Raw is read only by the functions listed in table c09_raw_readers", raw),
+		mk("whole", "the certificate is never passed whole to an external function (other than the name-parsing accessors) nor boxed into an interface", whole),
+	}
+}
+
+func funcKeyQualified(fn *ssa.Function) string {
+	p := ""
+	if fn.Pkg != nil {
+		p = fn.Pkg.Pkg.Name() + "."
+	}
+	return p + funcKey(fn)
 }
